@@ -339,6 +339,27 @@ theorem c22_values_sequential {V : Type} {ops : Executor.Ops V} {r : Executor.Ru
   rw [← hg] at hok hok'
   exact Executor.c02_plan_independent_iff hwf hcap hct hu hin hargs.1 hok hok' vals
 
+/-- **No call panics because of another** (outcome level): on a graph whose operator inputs and
+outputs are value or constant nodes, for every schedule of any calls from any reachable cache,
+every finished call returned `Ok` or an error — in the reduced `run_plan` none of the panic
+sites is reachable with the plan the call holds (`runPlan_accepted`, `partialRun_no_panic`). -/
+theorem c22_never_panics {m : Mdl} (hwf : WFG m.g) (hwo : WFGo m.g) {c : Option CachedPlan}
+    (hc : Reachable m c) (calls : List Call) (sched : List Nat) {i : Nat} {k : Call} {o : Outcome}
+    (hk : calls[i]? = some k)
+    (hd : (execSched .fixed m calls sched (initSys c calls)).pcs[i]? = some (.done o)) :
+    o.isPanic = false := by
+  have hs := c22_call_spec hc calls sched hk hd
+  unfold Spec at hs
+  by_cases hp : k.isPartial = true
+  · rw [if_pos hp] at hs; rw [hs]; exact partialRun_no_panic hwf hwo _ _ _
+  · rw [if_neg hp] at hs
+    by_cases hv : validateInputs m k.req.inputs = false
+    · rw [if_pos hv] at hs; rw [hs]; rfl
+    · rw [if_neg hv] at hs
+      rcases hs with ⟨e, _, ho⟩ | ⟨plan, hargs, hok, ho⟩
+      · rw [ho]; rfl
+      · rcases runPlan_accepted hwf k.opsOk hargs hok with ⟨_, h⟩ | h <;> (rw [ho, h]; rfl)
+
 /-! ## T3 -/
 
 /-- Steps a thread still has to take. -/
